@@ -20,8 +20,12 @@ HEADLINE  `C10_node_emissions_not_rejected`:
   `C10_node_emissions_accepted_fresh_timely`: fresh peer that knows the validator, inside the slot / round window ⟹ accept.
 
 Hypotheses that remain (exact names):
-* `TimelyAction σ a` (= `RcQuorumInRound` on the delivered round-change): "a round-change quorum for round r completes only
-  while `State.Round = r`" — the property's timing assumption in the only place the node's emission code depends on it.
+* `TimelyAction σ a` — or, in the plain form, `InRoundAction` along the run (`ReachableC`, f ≥ 1):
+  `C10_node_emissions_not_rejected_in_round`, `C10_timing_from_in_round_delivery`.
+  `TimelyAction σ a` (= `RcQuorumInRound` on the delivered round-change): "a valid round-change that completes the
+  round-change quorum of its round r does so while `State.Round ≥ r` (hence = r: past rounds are dropped)", i.e. a quorum
+  for a FUTURE round never completes — the property's timing assumption ("messages arrive within the round") in the only
+  place the node's emission code depends on it.
   NECESSARY: `C10_untimed_emissions_not_rejected_full_refuted` (all four operators correct).
 * `GatedAction a` / `ReachableG σ` (decided messages only): the operator's own message validation precedes its controller, so
   stored commits carry no justification fields; `aggregateCommitMsgs` copies `msgs[0]` including those fields.
@@ -40,7 +44,7 @@ justification that is empty or a prepare quorum for (LastPreparedRound, LastPrep
 distinct non-zero committee signers, SORTED (strictly increasing), root = hash(full data), no justification fields.
 Message counts (`C10_message_counts`): ≤ 1 prepare, ≤ 1 commit per round and operator; ≤ 1 round change per round while no
 decided message moved the operator's round. (Ignore-class rule; not part of `HonestConsensus`.)
-Helper lemmas: Ssv/Proofs/EmissionBridge{,Inst,Sys,Count,Example}.lean.
+Helper lemmas: Ssv/Proofs/EmissionBridge{,Inst,Sys,Count,Skew,SkewSys,Example}.lean.
 -/
 import Ssv.Proofs.EmissionBridgeExample
 import Ssv.Proofs.EmissionBridgeCount
@@ -266,6 +270,41 @@ theorem C10_node_emissions_accepted_fresh_timely {P : Params} (hP : P.Valid) {σ
   · exact honestConsensus_of_inst _ hwf x (sys_bcast_honest hP hr.reachable a hen ht x hx) sh hsh i w he
   · exact honestConsensus_of_decided _ hwf x (sys_decided_honest hP hr a hen hg x hx) sh hsh i w he
 
+/-! ## the timing hypothesis, derived from in-round delivery
+
+`TimelyAction` is a statement about the receiving instance's round-change container. It FOLLOWS (for f ≥ 1) from the
+plain reading of "messages arrive within the round", with one round of skew allowed: along the run every delivered
+round-change is for a round ≤ `State.Round + 1`, every delivered decided message is for a round ≥ `State.Round`, and no
+correct operator crashes (`InRoundAction`; starts and timeouts, including stale ones, are unconstrained). Reason
+(Proofs/EmissionBridgeSkew.lean): the container then never holds f+1 distinct signers for higher rounds without the
+instance having jumped (`SkewInv`), and 2f+1 > f+1. -/
+
+/-- the container invariant behind the timing hypothesis, at every correct operator -/
+theorem C10_round_change_container_invariant {P : Params} (hP : P.Valid) (hf : 1 ≤ P.f) {σ : Sys P} (hr : ReachableT σ)
+    (i : Op P) (s : State) (hs : instAt P.height (σ.ctrl i) = some s) :
+    (∀ x ∈ s.roundChange, x.round ≤ s.round + 1) ∧
+    (P.cfg i).hasPartialQuorum (signersOf (s.roundChange.filter (fun x => Nat.blt s.round x.round))) = false := by
+  have h := skew_of_reachableT hP hf hr i
+  rw [hs] at h
+  exact ⟨h.near, h.noPQ⟩
+
+/-- TIMING DISCHARGED: in-round deliveries satisfy `TimelyAction` -/
+theorem C10_timing_from_in_round_delivery {P : Params} (hP : P.Valid) (hf : 1 ≤ P.f) {σ : Sys P} (hr : ReachableT σ)
+    (a : Action P) (hin : InRoundAction σ a) : TimelyAction σ a := timely_of_inRound hP hf hr a hin
+
+/-- HEADLINE, with the timing assumption in its plain form: in a run of `SystemB` whose deliveries are gated and in-round
+    (`ReachableC`), every consensus message a correct operator emits is never rejected by a correct peer -/
+theorem C10_node_emissions_not_rejected_in_round {P : Params} (hP : P.Valid) (hf : 1 ≤ P.f) {σ : Sys P}
+    (hr : ReachableC σ) (a : Action P) (hen : enabled σ a = true) (hg : GatedAction a) (hin : InRoundAction σ a)
+    (x : Msg) (hx : Out.bcast x ∈ stepOuts σ a ∨ Out.bcastDecided x ∈ stepOuts σ a)
+    (X : Validation.Ctx) (st : Validation.State) (i : Validation.Input) (w : Wire) (sh : Validation.Share)
+    (hb : i.body = .consensus (toValidationMsg (P.cfg (actor a)) w x)) (hs : i.share = some sh ∨ i.share = none)
+    (hsh : ShareMatches (P.cfg (actor a)) sh) (he : EnvelopeOk i w)
+    (hp : Validation.PeerConsistent X st i sh (toValidationMsg (P.cfg (actor a)) w x)) :
+    (∀ t, (Validation.validate X st i).2 ≠ .reject t) ∧ (∀ s, (Validation.validate X st i).2 ≠ .panic s) :=
+  C10_node_emissions_not_rejected hP hr.gated a hen hg (timely_of_inRound hP hf hr.inRound a hin) x hx X st i w sh hb hs
+    hsh he hp
+
 /-! ## FINDING: without the timing hypothesis a correct operator's proposal is rejected
 
 `uponRoundChange` checks the justification and its own leadership for the round of the TRIGGERING round-change
@@ -360,6 +399,19 @@ theorem exA_facts :
     (stepOuts exSysA (.deliver 0 exRc3)).map (fun o => match o with
       | .bcast x => (x.type, x.round, x.signers, x.rcJust.length, x.fullData) | _ => (9, 0, [], 0, 0)) = [(0, 2, [1], 3, 5)] := by
   decide +kernel
+
+/-- the delivery is in-round, and `exSysA` was reached through gated in-round deliveries: the in-round headline applies -/
+theorem exA_inRound : InRoundAction exSysA (.deliver 0 exRc3) := by decide +kernel
+
+example : ∀ x, Out.bcast x ∈ stepOuts exSysA (.deliver 0 exRc3) →
+    (∀ t, (Validation.validate Validation.ctx0 Validation.State.empty (exInput 0 x 6)).2 ≠ .reject t) :=
+  fun x hx => (C10_node_emissions_not_rejected_in_round exP_valid (by decide) exA_reachableC (.deliver 0 exRc3)
+    exA_facts.1 exA_facts.2.1 exA_inRound x (Or.inl hx) Validation.ctx0 Validation.State.empty (exInput 0 x 6) ⟨96, false⟩
+    Validation.share4 rfl (Or.inl rfl) (exShare 0) (exEnvelope 0 x 6) (exFresh 0 x 6)).1
+
+/-- … whereas the finding's delivery is not in-round (round 3 delivered to an instance in round 2 is fine, but the run
+    that led there delivered round 3 to an instance in round 1) -/
+example : (runItemsC (Sys.init fP) fSched).isSome = false := by decide +kernel
 
 theorem exA_timely : TimelyAction exSysA (.deliver 0 exRc3) := by
   intro s hs _ _ _
